@@ -18,6 +18,7 @@ After every update that computes (time lapse > 0):
 Exceptions raised by ``action`` are counted in the evidence (``exceptions``), not treated as limit violations.
 """
 import itertools
+import random
 import math
 from fractions import Fraction
 
@@ -201,6 +202,8 @@ class Rig(object):
                                   "error does not differ from input - set point by a whole number of full turns",
                                   lambda: wit(difference=repr(d), turns=int(k), residual=float(res)))
                         ctx.hit("error_wrapped" if k != 0 else "error_in_range_already")
+                        if d != 0 and abs(d) < 1e-9 * p["wrap"]:
+                            ctx.hit("tiny_difference_with_wrap")
             else:
                 ctx.hit("error_check_skipped_nonfinite")
             # R
@@ -285,6 +288,15 @@ def gen_steps(rng, n):
             rsp = rsp + rng.choice((0.001, -0.001, 0.01, 0.02))      # around the drsp threshold
         inp = gen_value(rng, inp if finite(inp) else 0.0)
         steps.append((t, inp, gen_value(rng), rsp))
+    # inputs a few units in the last place beside the set point (a plant that has just about arrived): the difference is
+    # tiny and of either sign, and its shortest wrapped form is that tiny difference, not half a turn
+    r2 = random.Random(repr(steps[:2]))
+    for j, (t, inp, rate, rsp) in enumerate(steps):
+        if finite(rsp) and r2.random() < 0.12:
+            x = rsp
+            for _ in range(r2.randint(1, 3)):
+                x = math.nextafter(x, r2.choice((-INF, INF)))
+            steps[j] = (t, x, rate, rsp)
     return steps
 
 
@@ -343,4 +355,5 @@ def run(ctx):
     ctx.floor("setpoint_jump", n)
     ctx.floor("twin_perturbed", n // 2)
     ctx.floor("error_wrapped", n // 4)
+    ctx.floor("tiny_difference_with_wrap", n // 8)
     ctx.floor("no_lapse_update", n // 2)
